@@ -24,7 +24,7 @@ RULE = (
     "(xpath text, tree fingerprint)"
 )
 ASSUMPTIONS = ["reference evaluator encodes the documented semantics (virtual super-root; the root satisfies no field/index constraint)"]
-MUST_SEE = ["second_tree_sharing_nodes", "late_defined_class", "index_ge_10_match", "first_step_field", "root_matches", "two_anywhere", "nonempty", "relative_spelling", "index_only_step"]
+MUST_SEE = ["index_ge_257_match", "second_tree_sharing_nodes", "late_defined_class", "index_ge_10_match", "first_step_field", "root_matches", "two_anywhere", "nonempty", "relative_spelling", "index_only_step"]
 CONFIG = {
     "quick": {"shards": 16, "trees": 50, "xpaths": 70, "watchdog_s": 300},
     "thorough": {"shards": 32, "trees": 300, "xpaths": 120, "watchdog_s": 3000},
@@ -34,7 +34,7 @@ CONFIG = {
 def make_tree(rng, U, case, wide: bool):
     P = U.P
     if wide:
-        kids = tuple(S(rng.choice([f"{P}Leaf", f"{P}Name", f"{P}Leaf2"]), {"v": i}) for i in range(rng.randint(11, 15)))
+        kids = tuple(S(rng.choice([f"{P}Leaf", f"{P}Name", f"{P}Leaf2"]), {"v": i}) for i in range(rng.randint(11, 15) if case % 16 != 8 else rng.choice([258, 300])))
         inner = S(f"{P}List", {}, {"items": kids, "root": S(f"{P}Leaf", {"v": 99})})
         body = tuple([inner] + [S(f"{P}Un", {}, {"child": S(f"{P}Leaf", {"v": j})}) for j in range(rng.randint(10, 13))])
         kids2 = tuple(S(rng.choice([f"{P}Leaf", f"{P}Un"]), {"v": 1}) if False else S(f"{P}Leaf", {"v": i}) for i in range(12))
@@ -100,7 +100,7 @@ def run_shard(ctx):
         other_tree = U.cls[f"{P}List"](items=tuple(dict.fromkeys(picks)), root=None).to_tree() if picks else None
         if other_tree is not None:
             ctx.count("second_tree_sharing_nodes")
-        for k in range(ctx.params["xpaths"]):
+        for k in range(ctx.params["xpaths"] if len(pos) <= 100 else 16):
             path = RX.gen_path(rng, pos, field_names, class_names, cls_choices)
             relative = path[0][0] and rng.random() < 0.5
             extra = rng.randrange(len(path)) if rng.random() < 0.08 else -1
@@ -125,13 +125,23 @@ def run_shard(ctx):
             if k % 2 and picks:
                 # the other Tree is built again right before the kept Tree is used
                 other_tree = U.cls[f"{P}List"](items=tuple(dict.fromkeys(picks)), root=None).to_tree()
-            m_ids = sorted(id(obj[id(p)]) for p in pos if xp.match(tree if k % 2 else root, obj[id(p)]))
-            if m_ids != exp_ids:
+            if len(pos) > 100:
+                # very wide trees: match() is asked about every expected node and a sample of the others
+                exp_set = set(exp_ids)
+                cand = [p for p in pos if id(obj[id(p)]) in exp_set][:60] + rng.sample(pos, 40)
+                cand_ids = {id(obj[id(p)]) for p in cand}
+                m_ids = sorted(id(obj[id(p)]) for p in {id(p): p for p in cand}.values() if xp.match(tree if k % 2 else root, obj[id(p)]))
+                exp_ids_m = sorted(i for i in exp_ids if i in cand_ids)
+                got_ids_m = sorted(i for i in got_ids if i in cand_ids)
+            else:
+                m_ids = sorted(id(obj[id(p)]) for p in pos if xp.match(tree if k % 2 else root, obj[id(p)]))
+                exp_ids_m, got_ids_m = exp_ids, got_ids
+            if m_ids != exp_ids_m:
                 d = dict(detail)
                 d["match"] = sorted(idx[i] for i in m_ids)
-                d["expected"] = sorted(idx[i] for i in exp_ids)
+                d["expected"] = sorted(idx[i] for i in exp_ids_m)
                 ctx.violation("match-vs-reference", "match differs from the documented semantics", d)
-            if m_ids != got_ids:
+            if m_ids != got_ids_m:
                 d = dict(detail)
                 d["match"] = sorted(idx[i] for i in m_ids)
                 d["findall"] = sorted(idx.get(i, "?") for i in got_ids)
@@ -145,6 +155,8 @@ def run_shard(ctx):
                 ctx.violation("find-frontend", "find / findall front-ends differ from ASTXpath.findall", detail)
             if exp:
                 ctx.count("nonempty")
+                if any(st[2] not in (None, "any") and st[2] >= 257 for st in path):
+                    ctx.count("index_ge_257_match")
                 ctx.fp((text, tree_fp))
                 if any(p is root_pos for p in exp):
                     ctx.count("root_matches")
